@@ -8,7 +8,7 @@ DRIVER = os.path.join(VERIF, 'driver', 'target', 'release', 'rsbdd-facts')
 CACHE = os.path.join(VERIF, '.cache')
 EVID = os.environ.get('RSBDD_EVIDENCE_DIR', os.path.join(VERIF, 'evidence'))
 
-def repo_hash(repo, extra=''):
+def repo_hash(repo, extra='', with_driver=True):
     h = hashlib.sha256()
     h.update(extra.encode())
     for root, dirs, files in os.walk(repo):
@@ -24,9 +24,14 @@ def repo_hash(repo, extra=''):
             except OSError:
                 continue
             h.update(os.path.relpath(p, repo).encode() + b'\0' + hashlib.sha256(data).digest())
-    with open(DRIVER, 'rb') as fh:
-        h.update(hashlib.sha256(fh.read()).digest())
+    if with_driver:
+        with open(DRIVER, 'rb') as fh:
+            h.update(hashlib.sha256(fh.read()).digest())
     return h.hexdigest()[:24]
+
+def tree_hash(repo):
+    """content hash of the source tree alone (no driver binary): identifies the tree the self-test corpus was validated on"""
+    return repo_hash(repo, 'tree', with_driver=False)
 
 def ensure_driver():
     if not os.path.exists(DRIVER):
